@@ -230,6 +230,37 @@ def cut(interp, t, a, base='piece'):
                 refined = pieces[:j] + [x for x in (pa, pb)] + pieces[j + 1:]
                 decs.append(_dec(interp, refined, pieces))
                 return _cat(pieces[:j] + [pa]), _cat([pb] + pieces[j + 1:])
+    if st.ghost.get('__align__') and not st.no_fork:
+        vis = _visible_decomps(interp, t)
+        if vis and len(vis[-1]) > 1:
+            # The position is not located among the known pieces by lengths alone: case split on where it
+            # falls in the most refined decomposition (boundaries and interiors that the length abstraction
+            # does not exclude), then cut there.  Keeps one shared set of pieces per string.
+            pieces = vis[-1]
+            off = z3.IntVal(0)
+            offs = [off]
+            for pc_ in pieces:
+                off = z3.simplify(off + _len_of(pc_))
+                offs.append(off)
+            alts = []
+            for j in range(1, len(offs)):
+                alts.append(offs[j] == a)
+            for j, pc_ in enumerate(pieces):
+                if z3.is_string_value(pc_) and len(pc_.as_string()) <= 1:
+                    continue
+                if pc_.get_id() in st.ghost.get('__len1__', {}):
+                    continue
+                alts.append(z3.And(offs[j] < a, a < offs[j + 1]))
+            alts = [c for c in alts if st._len_check(c) != z3.unsat]
+            if alts:
+                depth = st.ghost.get('__align_depth__', 0)
+                if depth < 4:
+                    st.ghost['__align_depth__'] = depth + 1
+                    try:
+                        st.choose(len(alts), alts, assume_feasible=True)
+                        return cut(interp, t, a, base)
+                    finally:
+                        st.ghost['__align_depth__'] = depth
     p = _fresh(interp, base)
     q = _fresh(interp, base)
     st.assume(t == z3.Concat(p, q))
@@ -325,6 +356,13 @@ def getitem(interp, s, idx):
         key = (t.get_id(), a.sexpr(), b.sexpr())
         if key in cache and _visible(interp, cache[key][2]):
             return cache[key][0]
+        # a slice of the same string whose bounds are provably (by lengths) the same: the same value
+        # (only with string alignment switched on: costs two length questions per cached slice)
+        for k2, ent in (list(cache.items()) if st.ghost.get('__align__') else ()):
+            if k2[0] == t.get_id() and len(ent) > 3 and _visible(interp, ent[2]):
+                a2, b2 = ent[3]
+                if (a2.eq(a) or st.must_hold_lengths(a2 == a)) and (b2.eq(b) or st.must_hold_lengths(b2 == b)):
+                    return ent[0]
         if st.must_hold_lengths(b >= a):
             mid_len = z3.simplify(b - a)
             a_len = a
@@ -340,7 +378,7 @@ def getitem(interp, s, idx):
         else:
             p, m, r = decompose(interp, t, [a_len, mid_len, None], 'slice')
             res = wrap(m)
-        cache[key] = (res, t, _dec(interp, []))
+        cache[key] = (res, t, _dec(interp, []), (a, b))
         return res
     i = _s(idx)
     if st.fork(wrap(z3.And(i >= 0, i < L))):
@@ -778,6 +816,12 @@ def forget_dead_pieces(interp):
             res, t = sl[key][0], sl[key][1]
             if dead_term(t) or (isinstance(res, Sym) and dead_term(_s(res))):
                 del sl[key]
+    tw = st.ghost.get('__takewhile__')
+    if tw:
+        for key in list(tw):
+            r, _d, t = tw[key]
+            if dead_term(t) or (isinstance(r, Sym) and dead_term(_s(r))):
+                del tw[key]
     fc = st.ghost.get('__finds__')
     if fc:
         for key in list(fc):
